@@ -99,6 +99,17 @@ def run(ctx):
             k, src = mutants.text_mutant(r2, base["src"])
             if src:
                 mcases.append({"id": len(mcases), "kind": k, "src": src, "seed": seed})
+    # and the rule-breaking statements of C17 (all rejected on a correct checker): should one be accepted, it must at least
+    # not take the compiler down
+    from . import c17
+    for b in range(2 if quick else 20):
+        seed = ctx.rng.randrange(1 << 48)
+        r3 = random.Random(seed)
+        p = gen_prog.ProgGen(r3, max_depth=2, features={"match", "loops", "structs", "assign", "helpers"}).program()
+        for rule, stmt in c17.STATEMENTS:
+            mcases.append({"id": len(mcases), "kind": "rule:" + rule, "src": c17.mutate(r3, p, rule, stmt, ""), "seed": seed})
+        for rule, top, stmt in c17.TOPLEVEL:
+            mcases.append({"id": len(mcases), "kind": "rule:" + rule, "src": c17.mutate(r3, p, rule, stmt, top), "seed": seed})
     ta = common.run_lines_guarded(common.GVH, [{"id": c["id"], "op": "typed_ast", "src": c["src"]} for c in mcases], per_case_timeout=20.0)
     acc = []
     for c in mcases:
@@ -128,6 +139,36 @@ def run(ctx):
             failures.append(Failure("oracle", "c05:accepted-mutant:input-shape", f"input parties {r['input_gates']} but the parameter types need {want}", sub, want, r["input_gates"]))
         if r["out_len"] != 161 + T.size_of(c["ret"]):
             failures.append(Failure("oracle", "c05:accepted-mutant:output-shape", f"{r['out_len']} output wires for 161 panic bits + a return type of {T.size_of(c['ret'])} bits (the type check.rs reports for main)", sub, 161 + T.size_of(c["ret"]), r["out_len"]))
+    # (f) numbers WITHOUT a suffix whose type comes from a later use (bound by `let`, flowing through a branch, an arm,
+    # a range or an array-repeat): the circuit must still have the width of the declared types
+    UNTYPED = [
+        ("range-typed-return", "pub fn main(x: u8) -> [u8; 3] { 1..4 }", 24),
+        ("range-typed-let", "pub fn main(x: u8) -> [u8; 3] { let a: [u8; 3] = 1..4; a }", 24),
+        ("range-in-tuple", "pub fn main(x: u8) -> ([u8; 3], u8) { (1..4, x) }", 32),
+        ("loop-over-untyped-range", "pub fn main(x: u8) -> u8 { let mut s = x; for i in 1..4 { s = s + i; } s }", 8),
+        ("untyped-let-arith", "pub fn main(x: u8) -> u8 { let a = 5; x + a }", 8),
+        ("untyped-let-tuple", "pub fn main(x: u8) -> u8 { let a = (1, 2); x + a.0 }", 8),
+        ("untyped-let-match", "pub fn main(x: u16) -> u16 { let r = match x { 0u16 => 1, _ => 2 }; r }", 16),
+        ("untyped-let-if", "pub fn main(x: bool) -> u64 { let r = if x { 1 } else { 2 }; r }", 64),
+        ("untyped-let-repeat", "pub fn main(x: u8) -> [u8; 3] { let a = [1; 3]; a }", 24),
+        ("typed-let-control", "pub fn main(x: u8) -> u8 { let a: u8 = 5; x + a }", 8),
+        ("suffixed-range-control", "pub fn main(x: u8) -> [u8; 3] { 1u8..4u8 }", 24),
+    ]
+    ures = common.run_lines_guarded(common.GVH, [{"id": i, "op": "compile_eval", "src": src, "kind": "ssa", "dedup": True, "inputs": []}
+                                                 for i, (_, src, _) in enumerate(UNTYPED)], per_case_timeout=20.0)
+    utally = {"right_width": 0, "wrong_width": 0, "rejected": 0}
+    for i, (name, src, bits) in enumerate(UNTYPED):
+        r = ures.get(i) or {}
+        sub = {"op": "compile_eval", "src": src, "kind": "ssa", "dedup": True, "inputs": []}
+        if not r.get("ok"):
+            utally["rejected"] += 1
+            if r.get("stage") == "panic" or name.endswith("control"):
+                failures.append(Failure("oracle", f"c05:untyped-number:{r.get('stage')}:{name}", f"the program is not compiled ({r.get('stage')}): {str(r.get('detail'))[:200]}", sub, "a circuit", r))
+        elif r["out_len"] != 161 + bits:
+            utally["wrong_width"] += 1
+            failures.append(Failure("oracle", f"c05:untyped-number:output-width:{name}", f"{r['out_len']} output wires for 161 panic bits + a return type of {bits} bits: a number without a suffix keeps 32 wires although its use gives it another type", sub, 161 + bits, r["out_len"]))
+        else:
+            utally["right_width"] += 1
     seen, uniq = set(), []
     for f in failures:
         if f.signature not in seen:
@@ -145,9 +186,10 @@ def run(ctx):
                 "compiler panic, valid, input parties and 161 + size(return type) outputs as the types with the sizes filled in "
                 "require; (e) mutants of generated programs (one expression site generated with another type, one token replaced) that "
                 "check.rs ACCEPTS: they must compile without a panic to a valid circuit whose input parties and output width are "
-                "those of the parameter and return types check.rs itself reports (harness op typed_ast). non-trivial = accepted "
+                "those of the parameter and return types check.rs itself reports (harness op typed_ast); (f) eleven hand-written programs "
+                "in which a number without a suffix gets its type from a later use (nine are the recorded finding, two controls). non-trivial = accepted "
                 "generated programs",
-        "distribution": {"runs": tally, "zero_size_runs": ztally, "corpus_programs_compiled": n_corpus, "const_sized": ctally, "accepted_mutants": mtally, "generator": stats},
+        "distribution": {"runs": tally, "zero_size_runs": ztally, "corpus_programs_compiled": n_corpus, "const_sized": ctally, "accepted_mutants": mtally, "untyped_numbers": utally, "generator": stats},
         "samples": [{"src": cases[0]["src"]}, {"src": zcases[0]["src"]}],
     }
     return common.finish(ctx, uniq, coverage, ["programs of nesting depth <= 3, arrays of at most 4 elements"], "proof", search=None)
